@@ -1,7 +1,7 @@
 SPECIFICATION SubSpec
 CONSTANTS
   Keys = {"a"}
-  NonPub = {}
+  NonPub = {"join", "leave"}
   Sizes = {2}
   Delays = {TRUE}
   Lates = {FALSE}
@@ -12,12 +12,12 @@ CONSTANTS
   SplitGet = FALSE
   RecheckOnStore = TRUE
   StaleTimers = FALSE
-  EarlyDel = FALSE
+  EarlyDel = TRUE
   MaxGen = 2
-  BatchedKinds = {"pub", "join", "leave", "other"}
+  BatchedKinds = {"pub", "join"}
   SubSplit = FALSE
   CfgSwitch = "none"
 VIEW SubView
-INVARIANTS TypeOK
-PROPERTIES GenBracket
+INVARIANTS TypeOK WireOrdered
+
 CHECK_DEADLOCK FALSE
